@@ -6,6 +6,7 @@
    names                                 -> the 14 names
    fields <Class>                        -> name~default~validators~converter;…
    field <Class> <field> <val>           -> ok <val> | error <Class> | nofield      (convert + validate one value)
+   setattr <Class> <field> <val>         -> ok <stored val> | error <Class>          (attribute assignment: converter + validators)
    apply <Class> <rederive> <base> <assignments>   -> error <cls> | ok <active derived attributes> | <fields>
                                            base / assignments: `k=v;k=v` (`-` = none); assignments are applied after construction
    ops <Class> <base> <op;op;…>           -> like `apply` (re-deriving) after a history; op = `A` (an apply) or `k=v` (an assignment)
@@ -13,7 +14,7 @@
    params <name> <range> <general> <varsettings> <kwargs> <k> -> the value `_from_variable` passes for keyword k
    has <lb> <lt> <ub> <ut>               -> six 0/1 flags (lower_threshold, lower_bound, upper_threshold, upper_bound, bound, threshold)
    isimipdefaults                        -> the four defaults
-   values: none | b:0 | b:1 | i:<int> | q:<num/den> | s:<str> | o:<tag>;  extended reals: -inf | inf | <num/den>
+   values: none | b:0 | b:1 | i:<int> | q:<num/den> | s:<str> | o:<tag> | n:<num/den> (numpy scalar that is not a Python int/float);  extended reals: -inf | inf | <num/den>
 -/
 import IbicusModel.Model.Proto
 import IbicusModel.Model.Config
@@ -27,6 +28,7 @@ def val? (s : String) : Option Val :=
     | ["b", "1"] => some (.b true)
     | ["i", x] => (parseInt? x).map .i
     | ["q", x] => (parseRat? x).map .q
+    | ["n", x] => (parseRat? x).map .np
     | ["s", x] => some (.s x)
     | ["o", x] => some (.other x)
     | _ => none
@@ -36,6 +38,7 @@ def showVal : Val → String
   | .b x => if x then "b:1" else "b:0"
   | .i x => "i:" ++ toString x
   | .q x => "q:" ++ showRat x
+  | .np x => "n:" ++ showRat x
   | .s x => "s:" ++ x
   | .other x => "o:" ++ x
 
@@ -99,6 +102,11 @@ def step (line : String) : String :=
       | some d, some x => (match fieldOf d fld with
           | none => "nofield"
           | some f => (match checkField f x with | .ok y => "ok " ++ showVal y | .error e => "error " ++ e))
+      | _, _ => "bad-op"
+  | ["setattr", c, fld, v] => match Deb.ofClassName c, val? v with
+      | some d, some x => (match assignChecked d ⟨[], noExtra⟩ fld x with
+          | .ok i => (match getKV i.fields fld with | some y => "ok " ++ showVal y | none => "ok ?")
+          | .error e => "error " ++ e)
       | _, _ => "bad-op"
   | ["apply", c, r, base, asg] => match Deb.ofClassName c, assoc? base, assoc? asg with
       | some d, some b, some a =>
